@@ -189,7 +189,11 @@ def rule_unw(ctx, rep, rule="R-UNW", da=False, scope=None):
                 if ihalf:
                     half.setdefault(key, set()).add(tag)
                 if irest < 0:
-                    if bad is None:
+                    if (p.origin or "std") == "debug-assert":
+                        # the unwinding starts at a `debug_assert!` of an internal invariant (established by other rules, e.g. the
+                        # typed length of a thin handle): not a reachable exit - unless it is a claim about a re-read count (R-RACY-ASSERT)
+                        tolerated.setdefault(key, set()).add("debug-assert")
+                    elif bad is None:
                         bad, badmsg = p, "an owner is released twice on this unwind path (count word %+d, owners %+d): double drop / use-after-free after a panic" % (dcount(p.vec), vget(p.vec, "own"))
                 elif irest > 0:
                     origin = p.origin or "std"
